@@ -60,7 +60,7 @@ Proof. intros k script. exact (reader_cancel_bound k script [] 0%nat (Nat.le_0_l
 Print Assumptions C09_cancel_prompt.
 
 Theorem C09_error_prompt : forall left sent cancel rest,
-  reader_from (ReadErr :: rest) left sent cancel = {| rd_out := []; rd_left := left; rd_why := StopErr |}.
+  reader_from (ReadErr :: rest) left sent cancel = read_end left [] sent cancel.
 Proof. exact reader_stops_on_error. Qed.
 Print Assumptions C09_error_prompt.
 
@@ -72,13 +72,25 @@ Example C09_nonvacuous :
   rd_why r = StopErr /\ length (rd_out r) = 6%nat /\ rd_left r = [27; 91; 50; 48; 48; 126; 104].
 Proof. vm_compute. repeat split. Qed.
 
-(* bytes that a Read returns TOGETHER with its error (io.Reader allows n > 0 with err != nil) are decoded like any other
-   read's before the reader stops with the error; C09_account covers them (script_bytes counts them) *)
+(* the end of the input (a read error that is not a cancellation; the bytes a Read returns TOGETHER with its error -
+   io.Reader allows n > 0 with err != nil - included): what was held back in case more would follow is decoded as it
+   stands, the reader stops with the error, the runs still account for every byte (C09_reader_accounts: script_bytes
+   counts the bytes that came with the error), and nothing stays held back unless a paste is still open *)
 Theorem C09_data_with_error : forall bs rest left sent cancel,
-  reader_from (ChunkErr bs :: rest) left sent cancel = reader_from [Chunk bs; ReadErr] left sent cancel.
+  reader_from (ChunkErr bs :: rest) left sent cancel = read_end left bs sent cancel.
 Proof. exact reader_data_with_error. Qed.
 Print Assumptions C09_data_with_error.
+Theorem C09_nothing_held_at_end_of_input : forall cancel left bs sent,
+  rd_why (read_end left bs sent cancel) = StopErr ->
+  rd_left (read_end left bs sent cancel) = [] \/ paste_open (rd_left (read_end left bs sent cancel)).
+Proof. exact read_end_nothing_held. Qed.
+Print Assumptions C09_nothing_held_at_end_of_input.
 Example C09_data_with_error_nonvacuous :
   let r := reader [Chunk [97]; ChunkErr [98; 27; 91; 65]] None in
   rd_why r = StopErr /\ length (rd_out r) = 3%nat /\ rd_left r = [] /\ runs (rd_out r) = [97; 98; 27; 91; 65].
+Proof. vm_compute. repeat split. Qed.
+(* a full read of 256 x 'a' is held back (a rune run may continue); the end of the input releases it *)
+Example C09_full_read_then_eof :
+  let r := reader [Chunk (repeat 97 256); ReadErr] None in
+  rd_why r = StopErr /\ length (rd_out r) = 1%nat /\ rd_left r = [] /\ runs (rd_out r) = repeat 97 256.
 Proof. vm_compute. repeat split. Qed.
